@@ -131,10 +131,31 @@ class TxnCluster(Cluster):
 
     def fault_alts(self, world, heads):
         """The generic per-request faults, reported to the scenario when taken (bounded-liveness clock, evidence)."""
+        lost = {f"lose:{ev.conn.label}:{ev.info}": ev for ev in heads if ev.kind == "resp"}
         out = []
         for a in super().fault_alts(world, heads):
-            out.append(Alt(a.label, a.kind, lambda a=a: (self.on_fault(a.label), a.fn())))
+            out.append(Alt(a.label, a.kind, lambda a=a, ev=lost.get(a.label): self._take_fault(a, ev)))
         return out
+
+    def _take_fault(self, a, ev):
+        self.on_fault(a.label)
+        a.fn()
+        if ev is not None:
+            self.stall(ev.conn)
+
+    def stall(self, conn):
+        """A reply that never comes: the broker handles the requests of one connection one at a time and answers in
+        order, so nothing queued behind the unanswered request is answered either (a later reply overtaking the missing
+        one would be a protocol violation by the broker, and the client would rightly report CorrelationIdError)."""
+        net = self.world.net
+        net.pending = [e for e in net.pending if not (e.conn is conn and e.kind == "resp")]
+        conn.busy = True
+        conn.stalled = True
+
+    def reply(self, conn, req, body, info=None):
+        if getattr(conn, "stalled", False):
+            return
+        super().reply(conn, req, body, info)
 
     def on_fault(self, label):
         pass
@@ -559,6 +580,9 @@ class TxnScenario:
             tasks.append(world.spawn(owner, self.offsets_task, owner, T, ti))
         if tasks and not spec.get("race"):
             await asyncio.wait(tasks)
+        elif tasks:
+            await asyncio.sleep(0)  # the send tasks reach their first gates before the end gate exists (canonical order: sends first)
+            await asyncio.sleep(0)
         await world.gate(f"{owner}.t{ti}.end")
         if spec["end"] == "abort":
             self.heal_acls()
